@@ -8,7 +8,7 @@ from props.util import BLS_MC12, BN_MC12, IRRED, MC2, espec, nontrivial_default
 RULE = ("correspondence: field operations of the reference and optimized classes (both real primes, "
         "FQ/FQ2/FQ12, int operands negative and > p, exponents up to p^12) and exhaustive/sampled small-field "
         "instantiations GF(p), GF(p^2), degree-12 extensions; predicates: the field axioms evaluated on the real classes")
-EXTRA_MODULES = {"Props.TieFieldsFq": "PyEcc.Tie.", "Props.TieFieldsFqp": "PyEcc.Tie.", "Props.TieFieldsMul": "PyEcc.Tie.", "Props.TieFieldsPoly": "PyEcc.Tie."}
+EXTRA_MODULES = {"Props.TieFieldsFq": "PyEcc.Tie.", "Props.TieFieldsFqp": "PyEcc.Tie.", "Props.TieFieldsMul": "PyEcc.Tie.", "Props.TieFieldsPoly": "PyEcc.Tie.", "Props.TieFieldsInv": "PyEcc.Tie."}
 HYPOTHESES = []
 NOT_YET_PROVED = []
 ASSUMPTIONS = ["mixed FQ/int coefficient lists passed to the optimized FQP constructor are outside the modelled domain"]
